@@ -608,7 +608,8 @@ class List(list, base.Symbolic, pg_typing.CustomTyping):
           f'list index out of range. '
           f'Length={len(self)}, index={index}')
     else:
-      indices = [index]
+      # Normalize a negative index, so the update reports the position.
+      indices = [index + len(self) if index < 0 else index]
 
     if (self._value_spec
         and len(self) - len(indices) < self._value_spec.min_size):
